@@ -303,13 +303,13 @@ func c01BuildCross() []string {
 
 func c01RunCross(c *wk.Case) {
 	if c01CrossScripts == nil {
-		c01CrossScripts = c01BuildCross()
+		c01CrossScripts = append(c01BuildCross(), c01BuildCrossR5()...)
 	}
 	if c.Index == 0 {
 		c.Count("cross-scripts-total", len(c01CrossScripts))
 	}
 	for i := c.Index; i < len(c01CrossScripts); i += c01CrossSlices {
-		c01RunOne(c, c01CrossScripts[i], 2*time.Second)
+		c01RunCrossItem(c, c01CrossScripts[i])
 	}
 }
 
